@@ -328,16 +328,22 @@ func (r *reader) initRootNode(fsID string) error {
 
 func (r *reader) initNodes(tr io.Reader) error {
 	dec := json.NewDecoder(tr)
+	var isEntries bool
 	for {
 		t, err := dec.Token()
 		if err != nil {
 			return fmt.Errorf("failed to get JSON token: %w", err)
 		}
+		if isEntries && t == nil {
+			return nil // "entries" is null; this layer doesn't have any entry
+		}
+		isEntries = false
 		if ele, ok := t.(string); ok {
 			if ele == "version" {
 				continue
 			}
 			if ele == "entries" {
+				isEntries = true
 				continue
 			}
 		}
